@@ -99,8 +99,10 @@ Step ==
              !.boundary = @ + B2N(LocLinkOf(h, c) /\ \E j \in Named(h, c) : c.xin = h.links[j].len /\ j < Len(h.links)),
              !.multilink = @ + B2N(LocLinkOf(h, c) /\ LocLinkOf(h, p) /\
                                    \E j \in Named(h, c), i \in Named(h, p) : j >= i + 2),
-             !.astride = @ + B2N(ss /\ c.gf # c.gb),
-             !.curved = @ + B2N(ss /\ c.rcl # 0)]
+             \* coverage counters are taken from the header's geometry, not from the values under test
+             !.astride = @ + B2N(ss /\ OnRoute(h, p.x) /\ OnRoute(h, p.x - h.len) /\ Slopes(h, p.x) # Slopes(h, p.x - h.len)),
+             !.curved = @ + B2N(ss /\ CurveIdx(h, p.x) # {} /\ CurveIdx(h, p.x - h.len) # {}
+                                   /\ COf(h, p.x) # COf(h, p.x - h.len))]
 
 StepErr ==
   /\ Rec[l].ev = "StepErr"
